@@ -16,7 +16,8 @@ import replcluster as rc
 import fwdcluster as fc
 from vbuild import VERIF, InfraError
 
-INVS = "TypeOK OneReplyRightConn RelayedIsLeaderReply NoFabricatedSuccess RefusedNotExecuted AnsweredUnlessOrphan OrphansOnlyByDeviation OrphansAreBinary"
+INVS = "TypeOK OneReplyRightConn RelayedIsLeaderReply NoFabricatedSuccess RefusedNotExecuted AnsweredUnlessOrphan OrphansOnlyByDeviation OrphansAreBinary FastPathAgreesWithLeader"
+ALLOPS = '"lock0", "lockw", "lockr", "lockc", "lockcw", "unlock"'
 
 MC = '''SPECIFICATION Spec
 CONSTANTS
@@ -29,6 +30,7 @@ CONSTANTS
   MaxFaults = %(faults)d
   RollbackLatestOnly = %(rlo)s
   FirstTextLocal = %(ftl)s
+  FastPathOr = %(fpor)s
   AllowDemote = %(demote)s
   RecordHist = %(hist)s
 INVARIANTS %(invs)s
@@ -37,7 +39,7 @@ CHECK_DEADLOCK FALSE
 '''
 
 def mc_cfg(**kw):
-    d = dict(bin='"b1"', text='"t1"', dir='"d1"', lids="1, 2", ops='"lock0", "lockw", "unlock"', maxreq=3, faults=1, rlo="TRUE", ftl="TRUE",
+    d = dict(bin='"b1"', text='"t1"', dir='"d1"', lids="1, 2", ops='"lock0", "lockw", "unlock"', maxreq=3, faults=1, rlo="TRUE", ftl="TRUE", fpor="FALSE",
              demote="FALSE", hist="FALSE", invs=INVS, props="PROPERTY NonLeaderEngineUntouched")
     d.update(kw)
     return MC % d
@@ -47,8 +49,8 @@ def exhaustive(tier, wd, res):
     try:
         quick = tier == "quick"
         runs = [("three-requests", mc_cfg(ops='"lockw", "unlock"') if quick else mc_cfg()),
-                ("all-ops-two-faults-demote", mc_cfg(ops='"lock0", "lockw", "lockc", "unlock"', maxreq=2, faults=2, demote="TRUE")),
-                ("deviations-repaired", mc_cfg(ops='"lock0", "lockw", "lockc", "unlock"', maxreq=2, faults=2, demote="TRUE", rlo="FALSE", ftl="FALSE",
+                ("all-ops-two-faults-demote", mc_cfg(ops=ALLOPS, maxreq=2, faults=2, demote="TRUE")),
+                ("deviations-repaired", mc_cfg(ops=ALLOPS, maxreq=2, faults=2, demote="TRUE", rlo="FALSE", ftl="FALSE",
                                                invs=INVS + " NoOrphan"))]
         if not quick:
             runs.append(("three-requests-two-faults", mc_cfg(faults=2, demote="TRUE")))
@@ -65,11 +67,15 @@ def exhaustive(tier, wd, res):
         r = vtlc.run_tlc(os.path.join(VERIF, "spec"), "Forward", mc_cfg(maxreq=2, faults=1, invs="NoOrphan", props=""), os.path.join(wd, "mc_orphan"),
                          workers=2, timeout=300, heap="1g")
         res["orphan_counterexample"] = "Invariant NoOrphan is violated" in r["out"]
+        # the fast-path guard written with OR (a no-wait lock of the holder answered by the follower) is refuted by the model
+        r = vtlc.run_tlc(os.path.join(VERIF, "spec"), "Forward", mc_cfg(ops='"lockr", "unlock"', maxreq=2, faults=0, fpor="TRUE", invs="FastPathAgreesWithLeader", props=""),
+                         os.path.join(wd, "mc_fastpath_or"), workers=2, timeout=300, heap="1g")
+        res["fastpath_or_counterexample"] = "Invariant FastPathAgreesWithLeader is violated" in r["out"]
         res["runs"] = out
     except Exception as ex:
         res["error"] = ex
 
-SIM = dict(bin='"b1", "b2"', text='"t1", "t2"', dir='"d1"', lids="1, 2, 3", ops='"lock0", "lockw", "lockc", "unlock"', faults=2, hist="TRUE",
+SIM = dict(bin='"b1", "b2"', text='"t1", "t2"', dir='"d1"', lids="1, 2, 3", ops=ALLOPS, faults=2, hist="TRUE",
            invs="Export OneReplyRightConn RelayedIsLeaderReply NoFabricatedSuccess", props="")
 
 def behaviours(seed, n, wd):
@@ -146,6 +152,8 @@ def behaviours(seed, n, wd):
 
 # ------------------------------------------------------------------------------------------- trace normalisation
 
+TS_BASE = 1700000000
+
 class IdMap:
     def __init__(self):
         self.m, self.n = {}, 1500000
@@ -172,10 +180,13 @@ def normalise(events, ids, vkeys):
         for f in ("lid", "key"):
             if f in e:
                 e[f] = ids.get(e[f])
+        if "ts" in e:
+            e["ts"] -= TS_BASE             # (TLC integers are 32 bit: seconds are counted from a fixed recent instant)
         if e["e"] == "snap":
             for ks in e["keys"]:
                 for h in ks["holds"]:
                     h["lid"] = ids.get(h["lid"])
+                    h["exp"] = max(0, h.get("exp", 0) - TS_BASE)
     # link
     used = set()
     for i, e in enumerate(out):
@@ -483,7 +494,8 @@ def run_part(out, tier, seed, wd):
                      "transitions": sum(r["transitions"] for r in mcres["runs"]),
                      "deviations_named": {"RollbackLatestOnly": "rollbackLatestCommand answers only the latest in-flight request of an upstream connection that broke",
                                           "FirstTextLocal": "first command of a text connection on a non-leader is run by the inner TextServerProtocol (refused locally, not forwarded)"},
-                     "orphan_counterexample_as_coded": mcres.get("orphan_counterexample")},
+                     "orphan_counterexample_as_coded": mcres.get("orphan_counterexample"),
+                     "fastpath_guard": "follower answers locally only for concurrent-check flag AND Timeout 0 AND key full in its replica; the OR variant is refuted: %s" % mcres.get("fastpath_or_counterexample")},
            "behaviours_generated": nraw, "behaviours_replayed": sum(1 for sc, _ in allseq.values() if sc.get("src") == "tlc"),
            "seeded_histories": sum(1 for sc, _ in allseq.values() if sc.get("src") == "seeded"),
            "directed_histories": sorted(n for n, (sc, _) in allseq.items() if sc.get("src") == "directed"),
